@@ -146,7 +146,7 @@ macro_rules! impl_exp {
 					return Err(ExpError::LambdaTooSmall);
 				}
 				Ok(Exp {
-					lambda_inverse: 1.0 / lambda,
+					lambda_inverse: 1.0 / lambda.abs(),
 				})
 			}
 		}
